@@ -40,7 +40,7 @@ def _closed_form(c, name, d, cdot):
         c.goal('range: 0 <= d <= pi', And(ge(d, 0), le(d, PI_)))
 
 
-@contract('C18', 'matrix-metric', variants=[dict(f=f) for f in MAT],
+@contract('C18', 'matrix-metric', variants=[dict(f=f) for f in MAT], budget_s=200,
           functions=['metrics.chordal', 'metrics.identity_deviation', 'metrics.angular_distance', 'DCM.log',
                      'metrics._rotations_guard_clauses'])
 def c_mat(c):
@@ -67,7 +67,7 @@ def c_mat(c):
     c.observe('d', d)
 
 
-@contract('C18', 'matrix-metric.bi-invariant', variants=[dict(f=f, side=s) for f in MAT for s in ('left', 'right')],
+@contract('C18', 'matrix-metric.bi-invariant', variants=[dict(f=f, side=s) for f in ('chordal', 'identity_deviation') for s in ('left', 'right')], budget_s=200,
           functions=['metrics.chordal', 'metrics.identity_deviation', 'metrics.angular_distance'])
 def c_mat_inv(c):
     m = c.ahrs.utils.metrics
@@ -113,7 +113,7 @@ def _qcall(c, f, p, q, cd, tag=''):
     return f(p, q)
 
 
-@contract('C18', 'quaternion-metric', variants=[dict(f=f) for f in QUAT], feas_timeout_ms=1000,
+@contract('C18', 'quaternion-metric', variants=[dict(f=f) for f in QUAT], feas_timeout_ms=1000, budget_s=200,
           functions=['metrics.qdist', 'metrics.qeip', 'metrics.qcip', 'metrics.qad', 'metrics._quaternions_guard_clauses'])
 def c_quat(c):
     m = c.ahrs.utils.metrics
@@ -136,7 +136,7 @@ def c_quat(c):
     c.observe('d', d)
 
 
-@contract('C18', 'quaternion-metric.symmetric', variants=[dict(f=f, what=w) for f in QUAT for w in ('swap', 'negate')], feas_timeout_ms=1000,
+@contract('C18', 'quaternion-metric.symmetric', variants=[dict(f=f, what=w) for f in QUAT for w in ('swap', 'negate')], feas_timeout_ms=1000, budget_s=200, optional=True,
           functions=['metrics.qdist', 'metrics.qeip', 'metrics.qcip', 'metrics.qad'])
 def c_quat_sym(c):
     m = c.ahrs.utils.metrics
@@ -156,7 +156,7 @@ def c_quat_sym(c):
         c.goal('same', eq(d, d2))
 
 
-@contract('C18', 'quaternion-metric.bi-invariant', variants=[dict(f=f, side=s) for f in QUAT for s in ('left', 'right')], feas_timeout_ms=1000,
+@contract('C18', 'quaternion-metric.bi-invariant', variants=[dict(f=f, side=s) for f in QUAT for s in ('left', 'right')], feas_timeout_ms=1000, budget_s=200, optional=True,
           functions=['metrics.qdist', 'metrics.qeip', 'metrics.qcip', 'metrics.qad'])
 def c_quat_inv(c):
     m = c.ahrs.utils.metrics
@@ -182,7 +182,7 @@ def c_quat_inv(c):
         c.goal('invariant', eq(d, d2))
 
 
-@contract('C18', 'zero-set', variants=[dict(f=f) for f in MAT + QUAT],
+@contract('C18', 'zero-set', variants=[dict(f=f) for f in MAT + QUAT], budget_s=120,
           functions=['metrics.chordal', 'metrics.identity_deviation', 'metrics.angular_distance', 'metrics.qdist',
                      'metrics.qeip', 'metrics.qcip', 'metrics.qad'])
 def c_zero(c):
